@@ -501,6 +501,10 @@ def is_ancestor(a, b):
     return a.root == b.root and cb[:len(ca)] == ca
 
 
+LAW_CLASSES = {'parent-is-bare-drive': ('parent_append', 'splitleaf'),
+               'basename-drive-like': ('parent_append', 'splitleaf')}
+
+
 def classes_of(p=None, paths=(), extra=()):
     """Finding classes of a failing input (predicates on the input, see findings.d/C12.json)."""
     out = list(extra)
@@ -547,8 +551,11 @@ def check_path_laws(rep, cls, roots, s, ri, dd, dr, p, stats):
         nonlocal bad
         bad += 1
         stats['fail:' + law] = stats.get('fail:' + law, 0) + 1
+        # a finding explains only the laws it is about: parent() of a path directly below a drive (and re-appending a
+        # drive-like basename) concern the parent/append laws, not e.g. the JSON round trip of the same path
+        cl = tuple(c for c in classes_of(p, extra=extra) if law in LAW_CLASSES.get(c, (law,)))
         rep.fail('%s law broken by %s(%r, %s): %s' % (law, cls.__name__, s, root.name, detail),
-                 dict(info, law=law, detail=detail), classes=classes_of(p, extra=extra))
+                 dict(info, law=law, detail=detail), classes=cl)
 
     def attempt(law, f, extra=()):
         try:
